@@ -177,13 +177,28 @@ def check(ctx):
                 ctx.ob("R13-c", f, f"raise {cls} fits the error table", False,
                        detail=f"`{norm(n)}` in {f.qual}: this error class has no entry for this function in the error table", node=n)
             elif spec == "still-registered":
-                blk = n._parent.body if hasattr(n._parent, "body") else [n]
-                first = blk[0]
-                fa = ctx.facts_at(f, first)
-                ok = bool(fa) and all(any(k.endswith(" in self._state.waiting_senders") and p for k, p in x) for x in fa)
-                ctx.ob("R13-c", f, "BrokenResourceError from send only if the woken sender is still registered", ok,
-                       detail="" if ok else "send raises BrokenResourceError without having found its own registration still present after the wake-up",
-                       node=n, by=("event in waiting_senders",))
+                # on every path to this raise the sender has, since its last suspension, found its own registration still present
+                # (path automaton rather than a fact at the raise: the deregistration that precedes the raise kills the fact)
+                from sa.engine.facts import atom as _atom
+
+                def is_reg_test(frag, node):
+                    return node.kind == "test" and _atom(node.node)[0].endswith(" in self._state.waiting_senders")
+
+                def is_this_raise(frag, node, n=n):
+                    return node.kind == "raise" and node.node is n
+
+                def step_sr(st, e, c):
+                    if e == "susp":
+                        return False if not c.is_exc else st
+                    if e == "regtest" and not c.is_exc:
+                        k = _atom(c.node.node)[0]
+                        return True if (k, True) in c.facts else st
+                    if e == "raise_here" and not st:
+                        return Bad("send raises BrokenResourceError without having found its own registration still present after the wake-up")
+                    return st
+
+                ctx.paths("R13-c", f, [("susp", "await $X"), ("regtest", [is_reg_test]), ("raise_here", [is_this_raise])], step_sr, False, None,
+                          instance="BrokenResourceError from send only if the woken sender is still registered")
             else:
                 ctx.require_at("R13-c", f, n, spec, instance=f"raise {cls} tells the truth", what=f"raise {cls}")
     for key in table:
